@@ -29,7 +29,6 @@ from harness import core
 ID = 'C13'
 TITLE = 'Lookups return exactly the matching rows in documented order'
 PROPS = ['Props/C13']
-DISABLED = True
 RULE = ('A: enumerated make_sort_spec arguments. B: random TwoWayMap op sequences over all bin-kind pairs '
         '(non-trivial: at least one op changed a dictionary and, for the failing stream, one insert raised). '
         'C: random op sequences on real lookup mappings with sorted lookups (non-trivial: some lookup returned '
@@ -44,8 +43,9 @@ TRUSTED = ['Model/Lookup.v is hand-written; it is compared on every run with the
            'the implementation (kernel V), not modelled here',
            'CPython: dict/set semantics (hash consistent with ==), sorted() returns the sorted permutation, '
            'float.as_integer_ratio is exact']
-ASSUMPTIONS = ['sort values are mutually comparable (Lookup_proofs.sortable: None, bool, int, finite float, str, alt '
-               'text, objects ordered inside their class; the fallback orders across classes) and keys contain no NaN '
+ASSUMPTIONS = ['sort values are mutually comparable (LookupSort_proofs.sortable: None, bool, int, finite float, str, alt '
+               'text, objects ordered inside their class whose class name is not "str"/"AltText"; the fallback orders across '
+               'classes; tuples/lists/records as sort values are modelled and compared but outside the proved domain) and keys contain no NaN '
                '(NaN is not representable in the model; such cases go to the robustness stream)',
                'lookup_refines_filter assumes the engine discipline stated as hypotheses: every written/removed row '
                'was update_record\'ed / unset before the lookup and _reset_sorted_versions ran for the spec '
@@ -379,6 +379,34 @@ def correspond_twoway(ctx):
                   kind='B:twoway %s' % ('raised' if raised else 'ok'),
                   sample=({'left': str(lk), 'right': str(rk), 'ops': repr(ops), 'outcomes': outs}
                           if raised and len(ops) <= 4 else None))
+  if ctx.tier == 'thorough':
+    # exhaustive small scope: every op sequence of length <= 2 over 2 left / 2 right values (one unhashable) for all
+    # 25 kind pairs, and of length 3 for the pairs the engine uses plus the strict ones
+    lv, rv = [1, 2], ['a', []]
+    alpha = [('insert', l, r) for l in lv for r in rv] + [('remove', l, r) for l in lv for r in rv] + \
+            [('remove_left', l) for l in lv] + [('remove_right', r) for r in rv] + [('clear',)]
+    used = {('LookupSet', 'single'), ('LookupSet', str(set)), (str(set), str(set)), ('strict', 'single'), ('single', 'strict')}
+    n_ex = 0
+    for (lk, lkc) in KINDS:
+      for (rk, rkc) in KINDS:
+        for n in (1, 2, 3):
+          if n == 3 and (str(lk), str(rk)) not in used:
+            continue
+          for ops in itertools.product(alpha, repeat=n):
+            ops = list(ops)
+            outs, fd, bd = run_twoway(im, lk, rk, ops)
+            cases.append((str(lk), str(rk), ops))
+            lits.append('(%s, %s, %s, %s, %s, %s)' % (lkc, rkc, core.coq_list([twop_lit(o) for o in ops]),
+                                                      core.coq_list(outs), dump_lit(fd), dump_lit(bd)))
+            if not twoway_same_pairs(fd, bd):
+              ctx.violation('twoway-inconsistent', 'TwoWayMap(left=%s, right=%s) forward and backward maps disagree' % (lk, rk),
+                            {'level': 'twoway', 'left': str(lk), 'right': str(rk), 'ops': repr(ops)})
+            n_ex += 1
+    ctx.bump('B:twoway exhaustive small scope', n_ex)
+    ctx.evaluations += n_ex
+    ctx.extra['exhaustive'] = True
+    ctx.extra['exhaustive_space'] = ('TwoWayMap: all op sequences of length <= 2 over {1,2} x {"a", []} for all 25 bin-kind '
+                                     'pairs, length 3 for the 5 pairs in use / strict')
   bad = run_cases(ctx, 'twoway', 'tw_check', lits, 800)
   for i in bad[:5]:
     ctx.broken('correspondence:TwoWayMap differs from the model', 'case %r' % (cases[i],))
@@ -713,7 +741,7 @@ def apply(e, bundle):
   return e.apply_user_actions([useractions.from_repr(copy.deepcopy(a)) for a in bundle])
 
 
-KEY_TYPES = ['Any', 'Text', 'Int', 'Numeric', 'Ref:U', 'Bool', 'Date']
+KEY_TYPES = ['Any', 'Any', 'Text', 'Int', 'Numeric', 'Ref:U', 'Bool', 'Date']
 LIST_TYPES = ['ChoiceList', 'RefList:U', 'Any']
 SORT_TYPES = ['Numeric', 'Text', 'Any', 'Int', 'Date', 'Ref:U']
 
@@ -744,9 +772,12 @@ QUERY_POOL = {
 ROBUST_POOL = [float('nan'), float('inf'), float('-inf'), ['L', 1], 'x', None, 1, {'a': 1}]
 
 
-def pool_for(ty, islist=False):
+def pool_for(ty, islist=False, iskey=False):
   if islist and ty == 'Any':
     return POOL['AnyList']
+  if iskey and ty == 'Any':
+    # a plain lookup column may hold unhashable cells (lists): such rows must drop out of the index
+    return POOL['Any'] + [['L', 1], ['L', 'a'], 1, 'a']
   return POOL[ty]
 
 
@@ -821,7 +852,7 @@ def t_values(rng, spec, cols):
     if c == 'manualSort':
       d[c] = float(rng.choice([1, 2, 3, 4, 5, 6, 2.5, 0.5]))
       continue
-    pool = pool_for(spec[c], islist=(c == 'L'))
+    pool = pool_for(spec[c], islist=(c == 'L'), iskey=(c in ('K', 'K2')))
     if spec['robust'] and rng.random() < 0.25 and c != 'L':
       pool = ROBUST_POOL
     d[c] = rng.choice(pool)
